@@ -115,6 +115,18 @@ where
 
         // read layer commitments from the channel and use them to build a list of alphas
         let layer_commitments = channel.read_fri_layer_commitments();
+
+        // the channel must provide one commitment for each FRI layer implied by the options and
+        // the degree bound, and one for the remainder; otherwise the query phase would read
+        // layers which the proof does not contain
+        if layer_commitments.len() != options.num_fri_layers(domain_size) + 1 {
+            return Err(VerifierError::DegreeTruncation(
+                max_poly_degree,
+                options.folding_factor(),
+                layer_commitments.len().saturating_sub(1),
+            ));
+        }
+
         let mut layer_alphas = Vec::with_capacity(layer_commitments.len());
         let mut max_degree_plus_1 = max_poly_degree + 1;
         for (depth, commitment) in layer_commitments.iter().enumerate() {
